@@ -349,7 +349,7 @@ impl Ctx {
         let name = format!(
             "{}_{}_{:016x}.json",
             self.id,
-            sub,
+            sub.replace(':', "-"),
             hash64(format!("{}{}", fail.signature(), case).as_bytes())
         );
         let path = dir.join(name);
